@@ -734,15 +734,11 @@ func c17Structure(c *Ctx, r *Report) {
 	var setT, setF, recvCall, writeCall ssa.Instruction
 	for _, b := range h.Blocks {
 		for _, in := range b.Instrs {
-			if cm, ok := isCallTo(in, "Store"); ok && len(cm.Args) == 2 {
-				if fa, ok := cm.Args[0].(*ssa.FieldAddr); ok && fieldVarOf(fa) != nil && isAtomicBool(fieldVarOf(fa).Type()) && fa.X == h.Params[0] {
-					if v, isC := constBool(cm.Args[1]); isC {
-						if v {
-							setT = in
-						} else {
-							setF = in
-						}
-					}
+			if v, ok := flagStore(in, h.Params[0], 1); ok {
+				if v {
+					setT = in
+				} else {
+					setF = in
 				}
 			}
 			if call, ok := in.(*ssa.Call); ok && call.Common().IsInvoke() {
@@ -853,12 +849,26 @@ func c17ShutdownScan(c *Ctx, r *Report, sh *ssa.Function, control bool) map[stri
 	fr.run(dnfTrue())
 	// B: result of the atomic load of a bool field of the ranged-over connection
 	var busy *CallRec
+	var busyAt ssa.Instruction
 	for _, cr := range an.calls {
-		if cr.frame != fr || cr.callee == nil || cr.callee.Name() != "Load" || cr.callee.Signature.Recv() == nil {
+		if cr.callee == nil || cr.callee.Name() != "Load" || cr.callee.Signature.Recv() == nil || !isAtomicBool(deref(cr.callee.Signature.Recv().Type())) {
 			continue
 		}
-		if b, ok := cr.callee.Signature.Results().At(0).Type().Underlying().(*types.Basic); ok && b.Kind() == types.Bool && inLoop(cr.instr.Block()) {
-			busy = cr
+		// the read itself, or the call of a small method of the package that performs it
+		var at ssa.Instruction = cr.instr
+		for fx := cr.frame; fx != fr && fx != nil; fx = fx.parent {
+			ci := fx.callOf()
+			if ci == nil || fx.depth > 2 {
+				at = nil
+				break
+			}
+			at = ci
+		}
+		if at == nil || at.Parent() != sh {
+			continue
+		}
+		if b, ok := cr.callee.Signature.Results().At(0).Type().Underlying().(*types.Basic); ok && b.Kind() == types.Bool && inLoop(at.Block()) {
+			busy, busyAt = cr, at
 		}
 	}
 	if busy == nil {
@@ -889,11 +899,11 @@ func c17ShutdownScan(c *Ctx, r *Report, sh *ssa.Function, control bool) map[stri
 			}
 			hasBack := false
 			for i, p := range b.Preds {
-				if !isBackEdge(p, b) || !blockReaches(b, busy.instr.Block()) {
+				if !isBackEdge(p, b) || !blockReaches(b, busyAt.Block()) {
 					continue
 				}
 				// only edges of the loop that contains the read
-				if !(b.Dominates(busy.instr.Block())) {
+				if !(b.Dominates(busyAt.Block())) {
 					continue
 				}
 				hasBack = true
@@ -943,7 +953,7 @@ func c17ShutdownScan(c *Ctx, r *Report, sh *ssa.Function, control bool) map[stri
 	// in-flight connections are not closed
 	ncl := 0
 	for _, cr := range an.calls {
-		if cr.frame != fr || cr.method != "Close" || !inLoop(cr.instr.Block()) || !busy.instr.Block().Dominates(cr.instr.Block()) {
+		if cr.frame != fr || cr.method != "Close" || !inLoop(cr.instr.Block()) || !busyAt.Block().Dominates(cr.instr.Block()) {
 			continue
 		}
 		ncl++
@@ -1302,4 +1312,37 @@ func capturedNonNil(fv *ssa.FreeVar, get func(*ssa.Function) (*Analysis, *Frame)
 	return pfr.forEachPathValue(p.obj, "", mk, st, func(cj Conj, v AV) bool {
 		return nonNilAt(pfr, DNF{cj}, v, nil)
 	})
+}
+
+// flagStore: instruction `in` stores the constant v into an atomic.Bool field of *recv: the atomic
+// Store itself, or a call of a method of recv's type whose only atomic store is such a one.
+func flagStore(in ssa.Instruction, recv ssa.Value, depth int) (bool, bool) {
+	ci, ok := in.(ssa.CallInstruction)
+	if !ok {
+		return false, false
+	}
+	cm := ci.Common()
+	sc := cm.StaticCallee()
+	if sc == nil || len(cm.Args) == 0 {
+		return false, false
+	}
+	if sc.Name() == "Store" && len(cm.Args) == 2 {
+		if fa, ok := cm.Args[0].(*ssa.FieldAddr); ok && fieldVarOf(fa) != nil && isAtomicBool(fieldVarOf(fa).Type()) && fa.X == recv {
+			return constBool(cm.Args[1])
+		}
+		return false, false
+	}
+	if depth == 0 || cm.Args[0] != recv || sc.Blocks == nil || sc.Signature.Recv() == nil || len(sc.Params) == 0 {
+		return false, false
+	}
+	n, val := 0, false
+	for _, b := range sc.Blocks {
+		for _, in2 := range b.Instrs {
+			if v, ok := flagStore(in2, sc.Params[0], depth-1); ok {
+				n++
+				val = v
+			}
+		}
+	}
+	return val, n == 1
 }
